@@ -5,7 +5,7 @@ slot `t` (an instance starts in exactly one slot and no two instances start in t
 every assignment of execution times to instances is of this form).  Everything else — timers
 first, ready set refreshed only when empty, one instance per callback and polling window,
 non-preemptive, service only in supplied slots — is unchanged and shared with `RTA.Exec`.
-`Exec.run` is the special case `ex i _ = WCET of i` (`ExecX.run_wcet`, `Lemmas/ExecRefineX.lean`). -/
+`Exec.run` is the special case `ex i _ = WCET of i` (`ExecX.run_wcet`, `Lemmas/ExecEndToEndX.lean`). -/
 
 namespace RTA.ExecX
 open RTA.Exec
